@@ -274,7 +274,7 @@ def check_grid(ctx, c, r, factory):
 def run(ctx):
     ctx.assumptions += [
         "theorems are over exact reals; the element matrix is the composition F = dN_pg@coord, invF = closed-form Inv (regenerated from _linalg.py), dN_e_pg = invF@dN_pg, B in the Kelvin-Mandel layout transcribed from Get_B_e_pg (layout checked against the running code on every element type)",
-        "ranks are computed modulo the prime 2^31-1 (EFLib.ModRank, native ints): a lower bound of the rational rank (not formalised); the matching upper bound is the rigid-mode theorem (ndof - n_rigid) or the row count; shear rows are used without the factor 1/sqrt2 (non-zero row scaling, same kernel)",
+        "rank statements: (i) for the types listed in coverage.exact_rational_certificates (tier dependent) a fully proved chain — exact rational sample matrix of the pipeline, certificate L*A = I (mod 2^31-1) over Z, integer descent + rational lift (EFLib.C02_RankQ) — shows that every RATIONAL vector annihilated by all sample rows and vanishing on n_rigid pinned dofs is zero (rows are scaled by det F at their point and shear rows lack the factor 1/sqrt2: non-zero row scalings; extension from Q^n to R^n not formalised); (ii) for the remaining types/patches ranks are computed modulo 2^31-1 (EFLib.ModRank): a lower bound of the rational rank, that step not formalised",
         "'no spurious mode' is PROVED only on the generated two-element patches (reference-shaped and one distorted copy per type) and sampled by dense eigen-decomposition on the other generated meshes; symmetric/PSD/rigid-modes-in-kernel/mass-total are for all coordinates and all meshes (abstract assembly)",
         "mass positive definiteness: theorem x'Mx=0 <-> all N-samples vanish (weights>0, det J != 0) + modular rank nPe of the N-sample matrix; the step 'full column rank mod p => injective over R' is not formalised",
         "beams: theorem only for the yAxis re-orthogonalisation (regenerated from the setter) and for congruence K = T'K_loc T (symmetric/PSD/kernel transport); that the rigid-body modes are the kernel is correspondence (axis-aligned and inclined beams, default and user non-perpendicular yAxis, both theories, K*rigid mode = 0 per mode, translational mass per direction); C10 owns the beam operator model",
@@ -296,7 +296,7 @@ def run(ctx):
         from translator import C12_linalg as T_lin
         _, tree = T_lin._src(ctx.repo)
         lin_txt = ("(* GENERATED from EasyFEA/FEM/_linalg.py (Det, Inv closed forms) by translator/C12_linalg.py *)\n"
-                   "From Coq Require Import List Arith ZArith QArith Reals.\nLocal Open Scope nat_scope.\n" + T_lin.emit_det_inv(T_lin.translate_det_inv(tree)))
+                   "From Coq Require Import List Arith ZArith QArith Reals.\nImport ListNotations.\nLocal Open Scope nat_scope.\n" + T_lin.emit_det_inv(T_lin.translate_det_inv(tree)))
         axis = T_axis.read_yaxis(ctx.repo)
         p2 = [T_patch.two_element_patch(n, r) for n, r in E.items()]
         pD = [T_patch.distort(p, ctx.rng) for p in p2]
@@ -318,16 +318,55 @@ def run(ctx):
         return
     # ---------------- 2. theorems ----------------
     proofs_ok = True
-    for f, to in (("C01_tables.v", 300), ("C02_kernel.v", 300), ("C02_mass.v", 300), ("C02_rank.v", 900)):
-        r = ctx.coq([f], timeout=to)
-        if not r.ok:
-            proofs_ok = False
-            ctx.violation("proof-broken:" + f, "%s no longer checks against the regenerated tables: %s" % (f, r.log.strip().splitlines()[-1][:200] if r.log.strip() else "?"),
-                          {"obligation": f, "log": r.log[-3000:]}, found_input=False)
-            if f == "C01_tables.v":
+    # two independent compilation chains run concurrently (2 cores): algebra (C01_tables -> C02_kernel,
+    # C02_mass, C02_beam) in a thread, rank decisions (C02_rank -> C02_exact) in the main thread
+    import threading
+    resA = {}
+
+    def chain_a():
+        for f in ("C01_tables.v", "C02_kernel.v", "C02_mass.v", "C02_beam.v"):
+            resA[f] = ctx.coq([f], timeout=300)
+            if not resA[f].ok and f == "C01_tables.v":
                 break
-    rb = ctx.coq(["C02_beam.v"], timeout=300)
-    if not rb.ok:
+    th_a = threading.Thread(target=chain_a)
+    th_a.start()
+    r_rank = ctx.coq(["C02_rank.v"], timeout=900)
+
+    def report_broken(f, r):
+        ctx.violation("proof-broken:" + f, "%s no longer checks against the regenerated tables: %s" % (f, r.log.strip().splitlines()[-1][:200] if r.log.strip() else "?"),
+                      {"obligation": f, "log": r.log[-3000:]}, found_input=False)
+    if not r_rank.ok:
+        proofs_ok = False
+        report_broken("C02_rank.v", r_rank)
+    # exact-rational certificates (no "rank mod p" step): which types run depends on the tier
+    allt = list(E)
+    big = ("HEXA20", "HEXA27", "PRISM18")
+    if ctx.tier == "thorough":
+        plan = {"exact_mass": allt, "exact_th2": allt, "exact_el2": [n for n in allt if E[n]["dim"] >= 2],
+                "exact_elD": [n for n in allt if E[n]["dim"] >= 2 and n not in big], "exact_thD": [n for n in allt if n not in big]}
+    else:
+        small = [n for n in allt if E[n]["nPe"] <= 8 or n in ("TETRA10",)]
+        plan = {"exact_mass": [n for n in allt if n not in big], "exact_th2": small, "exact_el2": [n for n in small if E[n]["dim"] >= 2],
+                "exact_elD": [], "exact_thD": []}
+    W("Gen_ExactPlan.v", "(* GENERATED: element types whose rank statements are re-proved with exact rational certificates in this tier *)\n"
+      "From Coq Require Import List String.\nImport ListNotations. Open Scope string_scope.\n" +
+      "".join("Definition %s : list string := [%s].\n" % (k, "; ".join('"%s"' % n for n in v)) for k, v in plan.items()))
+    ctx.copy_props("C02/C02_exact.v")
+    ctx.cov["exact_rational_certificates"] = plan
+    if os.path.exists(os.path.join(ctx.build, "C02_rank.vo")):
+        ctx.coq(["Gen_ExactPlan.v"], timeout=60, count=False)
+        rx = ctx.coq(["C02_exact.v"], timeout=2400)
+        if not rx.ok:
+            proofs_ok = False
+            ctx.violation("proof-broken:C02_exact.v", "C02_exact.v: an exact-rational kernel certificate no longer checks for a planned element type that passes the modular test: " + ((rx.log.strip().splitlines() or ["?"])[-1][:200]),
+                          {"obligation": "C02_exact.v", "log": rx.log[-3000:], "plan": plan}, found_input=False)
+    th_a.join()
+    for f in ("C01_tables.v", "C02_kernel.v", "C02_mass.v"):
+        if f in resA and not resA[f].ok:
+            proofs_ok = False
+            report_broken(f, resA[f])
+    rb = resA.get("C02_beam.v")
+    if rb is not None and not rb.ok:
         # exact search: a rational fibre direction / user axis for which the stored axis is not orthogonal
         found = False
         for xv, vv in (([F(3, 5), F(4, 5), F(0)], [F(0), F(1), F(0)]), ([F(2, 3), F(1, 3), F(2, 3)], [F(1, 3), F(2, 3), F(2, 3)]),
@@ -348,7 +387,7 @@ def run(ctx):
             + "".join('Eval vm_compute in ("%s", %s).\n' % (t, t) for t in ("deficient_el2", "deficient_elD", "deficient_th2", "deficient_thD", "deficient_mass"))
             + "Eval vm_compute in single_elastic.\nEval vm_compute in mass_table.\n"
             + "".join('Eval vm_compute in ("ranks_%s_%s", map (fun e => match lookup (ename e) "rigi", find_patch %s (ename e) with Some r, Some pa => (ename e, patch_rank %s e r pa, patch_ndof %s e pa) | _, _ => (ename e, None, 0%%nat) end) (filter (applicable %s) all_elems)).\n'
-                      % (k, l, l, k, k, k) for k in ("Elastic", "Thermal") for l in ("patches2", "patchesD")))
+                      % (k, l, l, k, k, k) for k in ("Elastic", "Thermal") for l in (("patches2", "patchesD") if ctx.tier == "thorough" else ("patches2",))))
     lists = {}
     if os.path.exists(os.path.join(ctx.build, "C02_rank.vo")):
         rc, outp = ctx.coq_eval("C02_print.v", body, timeout=600)
